@@ -37,6 +37,7 @@ Build ==
   /\ hist' = hist + 1
   /\ \/ \E t \in Tasks : AddTask(t)
      \/ \E t, d \in Tasks : DependsOn(t, d)
+     \/ \E t, d1, d2 \in Tasks : DependsOnSeq(t, <<d1, d2>>)
      \/ \E t \in Tasks : \E r \in 0..MaxRetries : (r # retries[t]) /\ SetRetries(t, r)
      \/ DefError
 
